@@ -347,14 +347,17 @@ class _Magic:
     message at DEBUG, which no handler prints but which cost more than the execution itself); both module-level
     settings are restored afterwards."""
 
-    def __init__(self, p2p):
+    def __init__(self, p2p, keep_logging=False):
         self.p2p = p2p
+        self.keep_logging = keep_logging  # a share of the cases runs with the module's own logger level (code behind
+        # isEnabledFor / debug-only branches is then executed as it is by default)
 
     def __enter__(self):
         self.saved = self.p2p.MAGIC_START_BYTES
         self.level = self.p2p.log.level
         self.p2p.set_magic_start_bytes("regtest")
-        self.p2p.log.setLevel(logging.CRITICAL + 10)
+        if not self.keep_logging:
+            self.p2p.log.setLevel(logging.CRITICAL + 10)
 
     def __exit__(self, *exc):
         self.p2p.MAGIC_START_BYTES = self.saved
@@ -388,12 +391,14 @@ def check_schedule(case):
     p2p = _lib()
     peers = _norm_peers(case["peers"])
     schedule = [int(c) for c in case["schedule"]]
-    with _Magic(p2p):
+    with _Magic(p2p, keep_logging=bool(case.get("log"))):
         plan = Plan(p2p, peers)
         if plan.skip:
             return ["skip:library-parse-raises"], []
         ex, labels, fails = run_one(p2p, plan, schedule)
     classes = _case_labels(peers) + labels
+    if case.get("log"):
+        classes.append("nt:exec/library-logging-at-its-own-level")
     classes.append(f"exec/preemptions-{min(_preemptions(ex.sched.trace), 4)}{'+' if _preemptions(ex.sched.trace) >= 4 else ''}")
     f = Fails()
     seen = set()
@@ -682,7 +687,7 @@ def sampled_cases(draw):
     n = draw(st.integers(2, 3))
     peers = [draw(st.lists(_MSG, min_size=1, max_size=3)) for _ in range(n)]
     schedule = draw(st.lists(st.integers(0, 5), max_size=12 * n))
-    return {"peers": peers, "schedule": schedule}
+    return {"peers": peers, "schedule": schedule, "log": draw(st.integers(0, 5)) == 0}
 
 
 def targets(tier):
@@ -699,7 +704,7 @@ def targets(tier):
             check_schedule,
             strategy=lambda tier: sampled_cases(),
             budget={"quick": 4000, "thorough": 50000},
-            required=[NT, "case:peers-2", "case:peers-3"] + ["kind:" + k for k in KINDS],
+            required=[NT, "nt:exec/library-logging-at-its-own-level", "case:peers-2", "case:peers-3"] + ["kind:" + k for k in KINDS],
         ),
         Target(
             "walks-3x2",
